@@ -60,6 +60,34 @@ CHECKS = {
          'Exploration with an exhaustive sub-space: random sequences of 0..200 points in seven shape classes x five threshold classes, plus every sequence of up to 6 points on a 3x3 grid (thorough) x four thresholds; dropped points are judged by exact distance, threshold 0 requires exact collinearity, a second pass must drop nothing, extra ordinates must not matter.',
          'Trusts math/big; the slack tau*(1+2^-50)+2^-46*max|ordinate| is the derived rounding allowance of the double evaluation.',
          '3/C20'),
+ 'C04': ('hostile-input monitors: panic/process-death journal, WF, canonical round trip, reference reader with the same limits, allocation monitor (runtime.MemStats), Read-call bound',
+         'Exploration of byte strings x limit configurations: valid encodings mutated by truncation (incl. every prefix), bit flips, splices, single count-field forgery located through the reference writer field map, random bytes behind headers, under 7 settings of MaxGeometryElements; each decode runs in a journalled child under an address-space limit; a count above its level limit must yield ErrGeometryTooLarge{Level,N,Limit} exactly when the reference reader meets it first, and allocation must stay below 64*len+128*sum(limits)+64KiB.',
+         'Trusts runtime.ReadMemStats in a single-goroutine child, the reference reader, and ulimit -v for containment; inputs with an unbacked count at a level without limit are outside the property and not driven. Coverage-guided fuzzing is not part of the registered commands.',
+         '3/C04'),
+ 'C05': ('differential monitor: library parser and an independent WKT reader (exact decimal conversion) against the model; reference speller generates spelling variants',
+         'Exploration: models in the WKT-expressible domain are encoded; the text must be accepted by wkt.Unmarshal and by an independent reader and both must equal the model bit for bit; 8 spellings per model (case, whitespace/newlines, bare/parenthesised multipoint members, attached/detached suffix, exponent numbers) must parse to the same model.',
+         'Trusts the reference WKT reader/speller in harness/ref (pinned by OGC SFA examples).',
+         '3/C05'),
+ 'C06': ('totality monitor over exhaustive token sequences + grammar-guided and mutated inputs; constructive must-reject classes; structural consistency monitor on accepted results',
+         'Exploration with exhaustive sub-spaces: every token sequence of length <=4 (thorough <=5) over a 37-token alphabet, random grammar derivations with mixed suffixes to depth 8, valid texts with exactly one injected defect (must be rejected), mutations/splices/raw bytes; any panic, (nil,nil), unrenderable error, inconsistent accepted geometry or non-canonical re-encode is a violation.',
+         'Trusts the consistency monitor written from the property and the speller producing the defect texts.',
+         '3/C06'),
+ 'C07': ('differential monitor against an independent RFC 8259/7946 reader + round-trip oracle with format carve-outs + totality monitor on mutated JSON',
+         'Exploration: geometry, Feature and FeatureCollection round trips (ids, bboxes, random property maps, null geometry, numeric ids), JSON output re-read by an independent reader with exact number conversion, and decoder totality over valid documents, structure-aware mutations, byte mutations, deep nesting, huge exponents and random bytes.',
+         'Trusts the reference JSON reader; properties compared via encoding/json canonical output; the carve-outs are encoded in geojsonExpect only.',
+         '3/C07'),
+ 'C17': ('Go race detector over a randomised concurrent call mix + bitwise input hashing + golden-result comparison + measured overlap table',
+         'Exploration of schedules: 36 groups of non-mutating entry points (all query, encode and decode paths) run on shared fixtures sequentially (input hash after every call) and then from 64 goroutines under -race at GOMAXPROCS 2/8/16 and several fixture seeds, with no harness synchronisation between barrier and join; every concurrent result is compared with the solo result; a third phase measures which function pairs really overlapped.',
+         'Trusts the race detector (reports unordered conflicting accesses on executed paths only); schedules are sampled, not enumerated.',
+         '3/C17'),
+ 'C18': ('exact decimal/rational oracle on every emitted numeral + independent WKT/JSON readers for well-formedness and structure',
+         'Exploration: d = 0..15 x ordinates aimed at the rounding logic (values straddling half-unit boundaries by a few ulps, binary ties, many nines, powers of ten, -0, 5e-324, 1.7e308) x all geometry shapes; every numeral is checked for digit count, trailing zeros, exponent form and |numeral - input| <= 1/2 unit as rationals; outputs re-read by reference readers; GeoJSON bbox and both option orders.',
+         'Trusts math/big decimal parsing and the reference readers.',
+         '3/C18'),
+ 'C19': ('round-trip oracle over every calendar day of the two-digit-year window + independent B-record column reader + totality monitor on mutated IGC',
+         'Exploration with exhaustive sub-spaces: every day 1970-01-01..2069-12-31 with fixes around midnight, random multi-day tracks across year/century/leap boundaries with positions at the poles and antimeridian; every single-extension I table; H DTE over all two-digit fields (thorough); mutated seeds, truncated B records, over-long lines, noise before the A record.',
+         'The property arithmetic is its own reference; B-record columns per FAI spec; termination decided by a Read-call bound.',
+         '3/C19'),
 }
 
 PLANNED = ['C%02d' % i for i in range(1, 21)]
